@@ -38,6 +38,19 @@ type bucketObject struct {
 	versions *skiplist.SkipList
 }
 
+// promote makes the most recently archived version the current one again.
+// It reports false if there is no archived version left.
+func (b *bucketObject) promote() bool {
+	if b.versions == nil || b.versions.Len() == 0 {
+		return false
+	}
+	last := b.versions.SeekToLast()
+	defer last.Close()
+	b.data = last.Value().(*bucketData)
+	b.versions.Delete(last.Key())
+	return true
+}
+
 func (b *bucketObject) Iterator() *bucketObjectIterator {
 	var iter skiplist.Iterator
 	if b.versions != nil {
@@ -241,11 +254,14 @@ func (b *bucket) rm(name string, at time.Time) (result gofakes3.ObjectDeleteResu
 		result.IsDeleteMarker = true
 		result.VersionID = item.versionID
 
+	} else if object.versions != nil && object.versions.Len() > 0 {
+		// Versions archived while versioning was enabled remain, so the key
+		// has to stay: the current version is replaced by a delete marker.
+		object.data = &bucketData{lastModified: at, name: name, deleteMarker: true, versionID: b.versionGen()}
+		result.IsDeleteMarker = true
+
 	} else {
-		object.data = nil
-		if object.versions == nil || object.versions.Len() == 0 {
-			b.objects.Delete(name)
-		}
+		b.objects.Delete(name)
 	}
 
 	return result, nil
@@ -259,7 +275,10 @@ func (b *bucket) rmVersion(name string, versionID gofakes3.VersionID, at time.Ti
 	} else if object.data != nil && object.data.versionID == versionID {
 		result.VersionID = versionID
 		result.IsDeleteMarker = object.data.deleteMarker
-		object.data = nil
+		// The previous version, if any, becomes the current one:
+		if !object.promote() {
+			b.objects.Delete(name)
+		}
 
 	} else if object.versions != nil {
 		versionIface, ok := object.versions.Delete(versionID)
@@ -271,10 +290,6 @@ func (b *bucket) rmVersion(name string, versionID gofakes3.VersionID, at time.Ti
 		version := versionIface.(*bucketData)
 		result.VersionID = version.versionID
 		result.IsDeleteMarker = version.deleteMarker
-	}
-
-	if object.data == nil && (object.versions == nil || object.versions.Len() == 0) {
-		b.objects.Delete(name)
 	}
 
 	return result, nil
